@@ -30,10 +30,16 @@ def valueRepr (printable : Char → Bool) (p : Param) : Str :=
     | v => reprInst printable v       -- `None` stays `None`
   else reprInst printable p.value
 
+/-- `self.value == self.default` (Python `==`; `NO_DEFAULT` equals nothing) -/
+def isDefaultVal (p : Param) : Bool :=
+  match p.default with
+  | some d => pyEq p.value d
+  | none => false
+
 /-- `AbstractParameter.repr`: `none` when the parameter does not take part in persistence -/
 def paramRepr (printable : Char → Bool) (p : Param) : Option Str :=
   if p.ignore then none
-  else if p.dpd && (match p.default with | some d => pyEq p.value d | none => false) then none
+  else if p.dpd && isDefaultVal p then none
   else some (p.name ++ '=' :: valueRepr printable p)
 
 /-- `'###'.join(parts)` -/
